@@ -141,7 +141,7 @@ def run(tier):
     vlib.ensure_build(asan=False)
     chk = Check(PID, tier)
     seed = chk.seed
-    total, ngraphs, ncli = (24000, 60, 160) if tier == "quick" else (300000, 1500, 1500)
+    total, ngraphs, ncli = (24000, 110, 160) if tier == "quick" else (300000, 1500, 1500)
     chk.rule = ("sources: mutants of the repository corpus (case i from (corpus, VERIF_SEED, i)), hostile import graphs, a catalogue of targeted error "
                 "positions (first/last token, alias strings, imported modules, generic instantiations, CRLF, tabs and multi-byte text). Distinct by "
                 "input hash; non-trivial = delivered at least one diagnostic or went through the CLI. Laws per diagnostic: file is a readable source, "
